@@ -431,6 +431,17 @@ impl<'a, 'ast> Visit<'ast> for R1<'a> {
     }
     fn visit_expr_for_loop(&mut self, fl: &'ast syn::ExprForLoop) {
         match &*fl.expr {
+            Expr::Reference(r) if r.mutability.is_none() && matches!(&*r.expr, Expr::MethodCall(_) | Expr::Call(_)) => {
+                // the iterated value is a temporary: bind it first (Verus' expansion of `for` does not extend its lifetime);
+                // `{ let it_src_ = CALL; for P in it_src_.iter() { .. } }` drops it at the same point as the original statement
+                let inner = txt(self.src, &*r.expr);
+                let (fs, fe) = nr(fl);
+                let (es, ee) = nr(&*fl.expr);
+                self.edits.push(Edit { start: fs, end: fs, text: format!("{{ let it_src_ = {}; ", inner), rule: "R1" });
+                self.edits.push(Edit { start: es, end: ee, text: "it_src_.iter()".into(), rule: "R1" });
+                self.edits.push(Edit { start: fe, end: fe, text: " }".into(), rule: "R1" });
+                return;
+            }
             Expr::Reference(r) if r.mutability.is_none() => {
                 let inner = txt(self.src, &*r.expr);
                 let needs_paren = !matches!(&*r.expr, Expr::Path(_) | Expr::Field(_) | Expr::MethodCall(_) | Expr::Call(_) | Expr::Paren(_) | Expr::Index(_));
